@@ -1,5 +1,5 @@
 import LZ4V.Judge.Rec
-import LZ4V.HC.HC5
+import LZ4V.HC.HC6
 import Std.Data.HashMap
 /-! # Judge op 18: `LZ4_compress_HC` at a hash-chain level (3..9) against the oracle model `LZ4V/HC`: the parser model, fed with the real match finders'
     logged answers as its oracle, must emit the very same sequences and the very same block; and every logged answer the parser could accept must
@@ -35,12 +35,12 @@ def judgeHCcore (level : Nat) (hist block log : ByteArray) (ret : Int) (out : By
     let f := i32At log (28 * k + 24)
     if kind == 1 then
       best := best.insert a ⟨e.toNat, d.toNat⟩
-      if fails.isEmpty && d ≥ 4 && !vmatch data a d.toNat e.toNat then
-        fails := [("hc_oracle_contract_broken", s!"level {level}: LZ4HC_InsertAndFindBestMatch at {a - H} (history {H}) answers len={d} off={e}: not a byte-verified match inside the window")]
+      if fails.isEmpty && d ≥ 4 && (!vmatch data a d.toNat e.toNat || a + d.toNat + 5 > H + n) then
+        fails := [("hc_oracle_contract_broken", s!"level {level}: LZ4HC_InsertAndFindBestMatch at {a - H} (history {H}) answers len={d} off={e}: not a byte-verified match inside the window ending at or before matchlimit")]
     else if kind == 2 then
       let st := ((a : Int) + f).toNat
       wider := wider.insert (a, b, c.toNat) (st, ⟨e.toNat, d.toNat⟩)
-      if fails.isEmpty && d > c && (!(b ≤ st && st ≤ a) || !vmatch data st d.toNat e.toNat) then
+      if fails.isEmpty && d > c && (!(b ≤ st && st ≤ a) || !vmatch data st d.toNat e.toNat || st + d.toNat + 5 > H + n) then
         fails := [("hc_oracle_contract_broken", s!"level {level}: LZ4HC_InsertAndGetWiderMatch(start={a - H}, low={b - H}, longest={c}) (history {H}) answers len={d} off={e} back={f}: not a byte-verified match inside the window")]
     else
       emits := ⟨a, b, c.toNat, d.toNat⟩ :: emits
